@@ -1695,6 +1695,15 @@ func planFor(prop, tier string) (*plan, error) {
 				sc.Ticks = 1
 				out = append(out, sc)
 			}
+			// the context is done before the call, or becomes done while it runs
+			{
+				sc := base(p, 1)
+				sc.Cancel = "pre"
+				out = append(out, sc)
+				if ids := panickable(p); len(ids) > 0 && !isPredID(ids[0]) {
+					out = append(out, withDec(base(p, 1), ids[:1], probe.Cancel))
+				}
+			}
 			if strings.HasPrefix(p.Fam, "INS-prestack") {
 				sc := base(p, 1)
 				sc.Instances = 2
